@@ -15,7 +15,7 @@ from ..core import B, outcome
 from .c03 import le
 
 
-def build(kind, m, n, rng, nin=2):
+def build(kind, m, n, rng, nin=2, global_xpubs=True):
     from buidl import hd
     from buidl.psbt import PSBT, NamedHDPublicKey
     from buidl.tx import Tx, TxIn, TxOut
@@ -62,7 +62,7 @@ def build(kind, m, n, rng, nin=2):
     spend_amt, chg_amt = total // 3, total // 2
     W["amounts_in"] = [o.amount for o in prev_outs]
     tx = Tx(1, [TxIn(prev.hash(), j) for j in range(nin)], [TxOut(spend_amt, P2WPKHScriptPubKey(rb(20))), TxOut(chg_amt, chg_spk)], 0, network="testnet")
-    W["psbt"] = PSBT.create(tx, tx_lookup=tx_lookup, pubkey_lookup=pubkey_lookup, redeem_lookup=redeem_lookup, witness_lookup=witness_lookup, hd_pubs=W["hd_pubs"])
+    W["psbt"] = PSBT.create(tx, tx_lookup=tx_lookup, pubkey_lookup=pubkey_lookup, redeem_lookup=redeem_lookup, witness_lookup=witness_lookup, hd_pubs=W["hd_pubs"] if global_xpubs else {})      # without the global xpub section only the reviewer's own key map can vouch for derivations
     return W
 
 
@@ -240,10 +240,12 @@ def one_job(args):
     setup_repo_import()
     from buidl.psbt import PSBT
     wi, kind, m, n, tname, seed = args
+    global_xpubs = not kind.endswith("-noxpubs")
+    kind = kind.replace("-noxpubs", "")
     rng = random.Random(seed + 7)
     cases = []
     for mode in ("object", "reparsed"):
-        W = build(kind, m, n, random.Random(seed + wi))
+        W = build(kind, m, n, random.Random(seed + wi), global_xpubs=global_xpubs)
         t = outcome(apply_tamper, W, tname, rng)
         if t[0] != "ok" or t[1] is None:
             continue
@@ -257,7 +259,7 @@ def one_job(args):
         if ps is not None:
             with contextlib.redirect_stdout(io.StringIO()):
                 res = outcome(ps.describe_basic_multisig, W["hdmap"])
-        c = {"id": "w%d.%s.%s" % (wi, tname, mode), "tamper": tname, "n": n, "m": m, "outs": outs_abs, "inputs_consistent": ok_inputs, "kind_": kind}
+        c = {"id": "w%d.%s.%s" % (wi, tname, mode), "tamper": tname, "n": n, "m": m, "outs": outs_abs, "inputs_consistent": ok_inputs, "kind_": kind + ("" if global_xpubs else "-noxpubs")}
         if res[0] == "ok":
             d = res[1]
             c.update({"res": "summary", "is_change": [bool(o["is_change"]) for o in d["outputs_desc"]], "fee": le(d["tx_fee_sats"]) if d["tx_fee_sats"] >= 0 else [255] * 9,
@@ -298,7 +300,7 @@ def run(ctx):
         ctx.exhaustive.append("Review: every PSBT reachable by <= 2 tamperings of the 10-entry catalogue, P2SH and P2WSH; unrepaired policy refuted, repaired policy satisfies ChangeIsReal")
     if not ctx.want("cases"):
         return
-    wallets = [("p2sh", 2, 3), ("p2wsh", 2, 3)] + ([] if q else [("p2sh", 1, 2), ("p2wsh", 3, 4), ("p2sh", 2, 2), ("p2wsh", 1, 1), ("p2sh", 3, 3)])
+    wallets = [("p2sh", 2, 3), ("p2wsh", 2, 3), ("p2wsh-noxpubs", 2, 3)] + ([] if q else [("p2sh-noxpubs", 2, 3), ("p2wsh-noxpubs", 1, 2)]) + ([] if q else [("p2sh", 1, 2), ("p2wsh", 3, 4), ("p2sh", 2, 2), ("p2wsh", 1, 1), ("p2sh", 3, 3)])
     jobs = []
     for wi, (kind, m, n) in enumerate(wallets):
         for tname in TAMPERS:
